@@ -57,7 +57,9 @@ func defaultFor(r *rng.R, t schema.Type) schema.Expr {
 	return nil
 }
 
-var commentPool = []string{"plain", "with 'quote'", `with "dq"`, "multi\nline", "hash # and // slash", "unicode é", "${interp}", "%{tmpl}", "back\\slash"}
+var commentPool = []string{"plain", "with 'quote'", `with "dq"`, "multi\nline", "hash # and // slash", "unicode é", "${interp}", "%{tmpl}", "back\\slash",
+	// three and more lines, first line = last line (the printer writes a string as a heredoc only when it IS one)
+	"\nprice > 0\n", "+------+\n| note |\n+------+", "TODO\nmiddle\nTODO", "a\nb\nc\nd", "-\n-\n-"}
 
 func genSchema(r *rng.R, o *dops, pool []schema.Type, f *feat) *schema.Schema {
 	s := schema.New(schemaName(o))
@@ -521,12 +523,25 @@ func uniq(xs []string) []string {
 	return r
 }
 
+var lastSchema = map[string]*schema.Schema{}
+
 func schemaOracle(w *out.W, o *dops, id string, s *schema.Schema, desc string) {
 	doc, st := o.marshalSafe(s)
 	if st != "ok" {
 		w.Violation(id, "schema-marshal-"+st, desc)
 		return
 	}
+	// the returned document belongs to the caller: later Marshal calls (of this or of any other schema) must not change it
+	keep := append([]byte(nil), doc...)
+	defer func() {
+		if lastSchema[o.name] != nil {
+			o.marshalSafe(lastSchema[o.name])
+		}
+		lastSchema[o.name] = s
+		if !bytes.Equal(keep, doc) {
+			w.Violation(id, "marshal-output-aliased", fmt.Sprintf("the bytes returned by MarshalHCL changed after later MarshalHCL calls: firstdiff=%q %s", firstDiff(keep, doc), desc))
+		}
+	}()
 	back, st, msg := o.evalSafe(doc)
 	if st != "ok" {
 		w.Violation(id, "schema-eval-"+st, fmt.Sprintf("%s error=%q", desc, firstLine(msg)))
